@@ -155,10 +155,12 @@ class LikelihoodModelResults:
 
         column = np.asarray(column)
         _theta = self.theta[column]
-        _cov = self.vcov(column=column)
-        if _cov.ndim == 2:
-            _cov = np.diag(_cov)
-        _t = _theta * pos_recipr(np.sqrt(_cov))
+        # variance of each selected estimate: diagonal entry of cov times the
+        # dispersion (a scalar, or one value per column of a 2D theta)
+        _var = np.diag(self.cov)[column]
+        if _theta.ndim > _var.ndim:
+            _var = _var[..., np.newaxis]
+        _t = _theta * pos_recipr(np.sqrt(_var * self.dispersion))
         return _t
 
     def vcov(self, matrix=None, column=None, dispersion=None, other=None):
